@@ -299,8 +299,8 @@ PROPS["C15"] = dict(
     groups=lambda tier, seed, ctx: [Group("c15", ["verif_c15"], jobs=5, harness_timeout=3000 if tier == "quick" else 7200, mem_gb=28)],
     functions=["devices::video::VideoState::{run_clock_cycles (mode 2/3/0 pixel pipeline), find_current_line_sprites, get_object_row, cache_next_tile_row, cache_next_window_tile_row, get_tile_address, get_tile_row}",
                "devices::video::tile::interleave", "devices::video::lcd::LCD::get_writing_buffer_line"],
-    bounds={"quick": "control values enumerated, contents symbolic: for each of 4 configurations (BG with scroll wrap-around, signed tile addressing and the second map; window starting at WX=163; "
-                     "two overlapping objects (symbolic pixel data) with symbolic flips, palette and BG-priority bits on the winning one; eleven objects on a line two of which are off-screen) one full scan line "
+    bounds={"quick": "control values enumerated, contents symbolic: for each of 5 configurations (BG with scroll wrap-around, signed tile addressing and the second map; window starting at WX=163; "
+                     "two overlapping objects (symbolic pixel data), once plain and once with both flips, palette 1 and the BG-over-OBJ bit on the winning one; eleven objects on a line two of which are off-screen) one full scan line "
                      "(114 calls of run_clock_cycles) over fully symbolic VRAM (maps and tile data) and palettes, any pixel column compared with the reference compositor; interleave and the "
                      "X-flip multiply trick for all inputs",
             "thorough": "plus a window at the left edge, 8x16 objects with Y flip, equal-X objects"},
